@@ -39,59 +39,106 @@ def _list_locals(fn: FuncInfo) -> set[str]:
     return out
 
 
+UNIQUE_SOURCES = {"codemods", "_codemods_by_id.values"}  # the registry list / the id-keyed registry dict: one entry per id
+
+
+def _selections(ctx, fn):
+    from ..selection import Describer
+
+    d = Describer(ctx, fn)
+    rets = [n for n in walk_no_nested(fn.node) if isinstance(n, ast.Return) and n.value is not None]
+    if not rets:
+        raise AnalysisError("match_codemods has no return")
+    return d, [(ret, d.describe(ret.value)) for ret in rets]
+
+
+def _keyed_by_id(ctx, fn, ins) -> bool:
+    """dict insertion `D[k] = v` where k is v's id: k == v.id, or v == REGISTRY_BY_ID[k] / .get(k)"""
+    r = ctx.resolver(fn)
+    key, val = ins.key, ins.value
+    if isinstance(key, ast.Attribute) and key.attr == "id" and unparse(key.value) == unparse(val):
+        return True
+    v = r.expand(val)
+    if isinstance(v, ast.NamedExpr):
+        v = v.value
+    if isinstance(v, ast.Name):
+        # bound by a walrus in the guarding test (`if (c := BYID.get(k)) is None: ... else: D[k] = c`) or by the nearest
+        # preceding assignment
+        cands = []
+        for must in ins.parts:
+            for _pol, txt in must:
+                if ":=" in txt:
+                    try:
+                        for x in ast.walk(ast.parse(txt, mode="eval")):
+                            if isinstance(x, ast.NamedExpr) and x.target.id == v.id:
+                                cands.append(x.value)
+                    except SyntaxError:
+                        pass
+        if not cands:
+            prev = [a for a in walk_no_nested(fn.node) if isinstance(a, ast.Assign) and any(isinstance(t, ast.Name) and t.id == v.id for t in a.targets) and a.lineno < ins.node.lineno]
+            if prev:
+                cands.append(max(prev, key=lambda a: a.lineno).value)
+        if cands:
+            v = cands[0]
+    if isinstance(v, ast.Subscript) and unparse(v.slice) == unparse(key):
+        return True
+    if isinstance(v, ast.Call) and isinstance(v.func, ast.Attribute) and v.func.attr == "get" and v.args and unparse(v.args[0]) == unparse(key):
+        return True
+    return False
+
+
+def _unique(ctx, fn, sel, fa) -> tuple[bool | None, str]:
+    """(True, '') unique by construction; (False, why) a duplicate is possible; (None, why) shape not understood."""
+    from ..selection import leaf_source
+
+    if any(w in ("set", "frozenset") for w in sel.wrappers):
+        return True, ""
+    if sel.kind == "source":
+        return (True, "") if sel.name in UNIQUE_SOURCES else (None, f"`{unparse(sel.expr)[:40]}` is not a known duplicate-free source")
+    if sel.kind == "comp":
+        leaf = leaf_source(sel)
+        if leaf is not None and leaf.kind == "source" and leaf.name in UNIQUE_SOURCES:
+            return True, ""
+        if leaf is not None and leaf.kind in ("dictvals", "list"):
+            return _unique(ctx, fn, leaf, fa)
+        return None, f"filter over `{unparse(leaf.expr)[:40] if leaf is not None else '?'}`, whose uniqueness is not established"
+    if sel.kind == "dictvals":
+        for ins in sel.insertions:
+            if not _keyed_by_id(ctx, fn, ins):
+                return False, f"dict `{sel.name}` is not keyed by the codemod id at `{unparse(ins.node)[:60]}`"
+        return True, ""
+    if sel.kind == "list":
+        for ins in sel.insertions:
+            n = ins.node
+            guarded = False
+            if isinstance(n, ast.Call) and n.func.attr == "append":
+                for must in ins.parts or [frozenset()]:
+                    g = any((not pol) and txt.replace(" ", "").endswith(f"in{sel.name}") for pol, txt in must)
+                    guarded = g
+                    if not g:
+                        break
+            if not guarded:
+                return False, (f"`{unparse(n)[:60]}` adds to the selection without a not-already-selected test: overlapping patterns "
+                               "or a pattern plus a literal id select the same codemod twice")
+        return True, ""
+    return None, sel.why_unknown
+
+
 def rule_select_unique(ctx, rep):
     rep.rule(
         "R-SELECT-UNIQUE",
-        "each return of match_codemods yields `list(D.values())` of an id-keyed dict, or a list every append/extend of which is "
-        "dominated by a not-already-present test — so no codemod can be selected twice whatever the pattern list",
+        "each return of match_codemods yields the values of an id-keyed dict, a plain filter of the (duplicate-free) registry list, or a "
+        "list every append of which is dominated by a not-already-present test — so no codemod can be selected twice whatever the pattern list",
         min_instances=2,
     )
     fn = ctx.prog.func(MATCH)
     fa = ctx.flow(fn)
-    dicts = _dict_locals(fn)
-    lists = _list_locals(fn)
-    rets = [n for n in walk_no_nested(fn.node) if isinstance(n, ast.Return) and n.value is not None]
-    if len(rets) < 1:
-        raise AnalysisError("match_codemods has no return")
-    for ret in rets:
-        v = ret.value
-        ok = False
-        why = f"returns `{unparse(v)[:60]}`, which is not unique by construction"
-        if isinstance(v, ast.Call) and call_name(v) == "list" and v.args and isinstance(v.args[0], ast.Call) and last_attr(v.args[0].func) == "values":
-            d = v.args[0].func.value
-            if isinstance(d, ast.Name) and d.id in dicts:
-                ok = True
-                # keys must be codemod ids
-                for n in walk_no_nested(fn.node):
-                    key = val = None
-                    if isinstance(n, ast.Assign) and isinstance(n.targets[0], ast.Subscript) and unparse(n.targets[0].value) == d.id:
-                        key, val = n.targets[0].slice, n.value
-                    elif isinstance(n, ast.Call) and last_attr(n.func) == "setdefault" and isinstance(n.func, ast.Attribute) and unparse(n.func.value) == d.id and len(n.args) == 2:
-                        key, val = n.args
-                    if key is None:
-                        continue
-                    key_is_id = (isinstance(key, ast.Attribute) and key.attr == "id" and unparse(key.value) == unparse(val)) or (
-                        isinstance(val, ast.Subscript) and unparse(val.slice) == unparse(key)
-                    ) or (isinstance(ctx.resolver(fn).expand(val), ast.Subscript) and unparse(ctx.resolver(fn).expand(val).slice) == unparse(key))
-                    if not key_is_id:
-                        ok = False
-                        why = f"dict `{d.id}` is not keyed by the codemod id at `{unparse(n)[:60]}`"
-        elif isinstance(v, ast.Name) and v.id in lists:
-            ok = True
-            for n in walk_no_nested(fn.node):
-                if isinstance(n, ast.Call) and last_attr(n.func) in ("append", "extend", "insert") and isinstance(n.func, ast.Attribute) and unparse(n.func.value) == v.id:
-                    guarded = any((not pol) and f" in {v.id}" in txt for pol, txt in fa.must_at(n)) or any(
-                        pol and f"not in {v.id}" in txt for pol, txt in fa.must_at(n)
-                    )
-                    if last_attr(n.func) == "extend":
-                        guarded = False
-                    if not guarded:
-                        ok = False
-                        why = (
-                            f"`{unparse(n)[:60]}` adds to the selection without a not-already-selected test: overlapping patterns "
-                            "or a pattern plus a literal id select the same codemod twice"
-                        )
-        rep.check("R-SELECT-UNIQUE", fn.qname, fn.loc(ret), ok, f"return {unparse(v)[:40]}", why)
+    _d, sels = _selections(ctx, fn)
+    for ret, sel in sels:
+        ok, why = _unique(ctx, fn, sel, fa)
+        if ok is None:
+            raise AnalysisError(f"match_codemods: returned selection `{unparse(ret.value)[:50]}` not understood ({why})")
+        rep.check("R-SELECT-UNIQUE", fn.qname, fn.loc(ret), ok, f"return#{sels.index((ret, sel))}:{sel.kind}", why or f"returns `{unparse(ret.value)[:60]}`, which is not unique by construction")
 
 
 def _pattern_source(ctx, fn: FuncInfo, e: ast.expr, depth: int = 6):
@@ -179,31 +226,26 @@ def rule_glob_anchored(ctx, rep):
                   f"user pattern becomes regex `{unparse(x)[:60]}` applied with .{use}(): "
                   + ", ".join(w for w, c in (("metacharacters not escaped", not escaped), ("not matched in full", not full)) if c)
                   + " (e.g. `*sql` also selects `.../sql-parameterization`)")
-    # predicates over codemod ids that are not one of the recognised matchers
-    recognised_lines = set()
-    for n in walk_no_nested(fn.node):
-        if isinstance(n, ast.Call) and (
-            (isinstance(n.func, ast.Attribute) and n.func.attr in ("match", "search", "fullmatch")) or (r.callee_qname(n) or "").startswith(("fnmatch.", "re."))
-        ):
-            recognised_lines.add(id(n))
+    # predicates over codemod ids that are not one of the recognised matchers: calls that take `<x>.id` directly (as
+    # argument or receiver) anywhere in match_codemods; wrappers like any()/bool()/not are looked through
     n_other = 0
-    for comp in walk_no_nested(fn.node):
-        conds = []
-        if isinstance(comp, (ast.ListComp, ast.GeneratorExp)):
-            for g in comp.generators:
-                if isinstance(g.iter, ast.Attribute) and g.iter.attr == "codemods":
-                    conds += g.ifs
-            if isinstance(comp.elt, ast.Call) and any("patterns" in unparse(g.iter) or "matchers" in unparse(g.iter) for g in comp.generators):
-                conds.append(comp.elt)
-        for cnd in conds:
-            calls = [c for c in ast.walk(cnd) if isinstance(c, ast.Call) and ".id" in unparse(c)]
-            for c in calls:
-                if id(c) in recognised_lines:
-                    continue
-                n_other += 1
-                rep.check("R-GLOB-ANCHORED", fn.qname, fn.loc(c), False, f"matcher:{unparse(c.func)[:30]}",
-                          f"codemod ids are matched against user patterns through `{unparse(c)[:50]}`, which is neither fnmatch nor an escaped "
-                          "regex applied with fullmatch: its treatment of `*` (prefix/infix/suffix, several stars) cannot be established")
+    for c in walk_no_nested(fn.node):
+        if not isinstance(c, ast.Call):
+            continue
+        direct = [a for a in list(c.args) + [k.value for k in c.keywords] if isinstance(a, ast.Attribute) and a.attr == "id"]
+        recv_id = isinstance(c.func, ast.Attribute) and isinstance(c.func.value, ast.Attribute) and c.func.value.attr == "id"
+        if not direct and not recv_id:
+            continue
+        q = r.callee_qname(c) or ""
+        la = last_attr(c.func) or ""
+        if q.startswith(("fnmatch.", "re.")) or (la in ("match", "search", "fullmatch") and not recv_id):
+            continue  # judged above
+        if la in ("setdefault", "get", "append", "add", "debug", "info", "warning", "format", "pop") or q in ("str", "repr", "len", "hash"):
+            continue  # bookkeeping with the id, not a pattern predicate
+        n_other += 1
+        rep.check("R-GLOB-ANCHORED", fn.qname, fn.loc(c), False, f"matcher:{unparse(c.func)[:30]}",
+                  f"codemod ids are matched against user patterns through `{unparse(c)[:50]}`, which is neither fnmatch nor an escaped "
+                  "regex applied with fullmatch: its treatment of `*` (prefix/infix/suffix, several stars) cannot be established")
     if n_sites + n_other < 2:
         raise AnalysisError("match_codemods no longer contains recognisable pattern matching for include and exclude")
 
@@ -215,25 +257,63 @@ def rule_order_preserved(ctx, rep):
         "and run() hands the same selection object to apply_codemods and compile_results",
         min_instances=4,
     )
+    from ..selection import leaf_source
+
     fn = ctx.prog.func(MATCH)
     r = ctx.resolver(fn)
-    loops = [n for n in walk_no_nested(fn.node) if isinstance(n, ast.For)]
-    inc = [l for l in loops if "codemod_include" in names_in(l.iter)]
-    ok = bool(inc) and all(isinstance(l.iter, ast.Name) for l in inc)
-    rep.check("R-ORDER-PRESERVED", fn.qname, fn.loc(inc[0]) if inc else fn.loc(), ok, "include-loop",
-              "the include branch does not iterate the user's list directly (sorted/set/reversed would change the requested order)")
-    # wildcard expansion in registry order
-    comps = [n for n in walk_no_nested(fn.node) if isinstance(n, (ast.ListComp, ast.GeneratorExp, ast.For))]
-    reg_iters = []
-    for n in comps:
-        it = n.generators[0].iter if not isinstance(n, ast.For) else n.iter
-        if isinstance(it, ast.Attribute) and it.attr == "codemods" and unparse(it.value) == "self":
-            reg_iters.append(n)
-    rep.check("R-ORDER-PRESERVED", fn.qname, fn.loc(reg_iters[0]) if reg_iters else fn.loc(), len(reg_iters) >= 2, "registry-order",
-              "wildcard / exclude expansion does not iterate self.codemods in registry order")
+    pp = fn.positional_params()
+    P_INC = pp[1] if len(pp) > 1 else "codemod_include"
+    d, sels = _selections(ctx, fn)
+    inc_ok, reg_ok = True, True
+    inc_seen = reg_seen = 0
+    why_inc = why_reg = ""
+    for ret, sel in sels:
+        if any(w in ("sorted", "set", "frozenset", "reversed", "reverse", "sort") for w in sel.wrappers):
+            reg_ok = False
+            why_reg = f"the selection is passed through {sel.wrappers} before it is returned"
+        for ins in sel.insertions:
+            # outermost loop that drives this insertion
+            outer = ins.loops[0] if ins.loops else None
+            if outer is not None:
+                it = outer.iter
+                osel = d.describe(it)
+                if osel.kind == "source" and osel.name == "param:" + P_INC:
+                    inc_seen += 1
+                    if osel.wrappers:
+                        inc_ok = False
+                        why_inc = f"the include list is iterated through {osel.wrappers}"
+                elif P_INC in names_in(it):
+                    inc_seen += 1
+                    inc_ok = False
+                    why_inc = f"the include list is iterated as `{unparse(it)[:40]}`"
+            # elements scanned from the registry: the scan must be the registry list itself, unwrapped
+            chain = ins.source
+            if chain is None and sel.kind == "comp":
+                chain = sel
+            leaf = leaf_source(chain) if chain is not None else None
+            hops = chain
+            while hops is not None and hops.kind == "comp":
+                if any(w in ("sorted", "set", "frozenset", "reversed") for w in hops.wrappers):
+                    reg_ok = False
+                    why_reg = f"registry matches are passed through {hops.wrappers}"
+                hops = hops.insertions[0].source
+            if leaf is not None and leaf.kind == "source" and not leaf.name.startswith("param:"):
+                reg_seen += 1
+                if leaf.name != "codemods" or leaf.wrappers:
+                    reg_ok = False
+                    why_reg = f"registry scan iterates `{unparse(leaf.expr)[:40]}` {leaf.wrappers or ''} instead of self.codemods"
+    rep.check("R-ORDER-PRESERVED", fn.qname, fn.loc(), inc_ok and inc_seen >= 1, "include-loop",
+              "the include branch does not iterate the user's list directly (sorted/set/reversed would change the requested order): " + why_inc)
+    rep.check("R-ORDER-PRESERVED", fn.qname, fn.loc(), reg_ok and reg_seen >= 2, "registry-order",
+              "wildcard / exclude expansion does not iterate self.codemods in registry order: " + why_reg)
     cod = ctx.prog.func("codemodder.registry.CodemodRegistry.codemods")
-    rv = [n.value for n in walk_no_nested(cod.node) if isinstance(n, ast.Return)]
-    ok = len(rv) == 1 and unparse(rv[0]).replace(" ", "") == "list(self._codemods_by_id.values())"
+    from ..selection import Describer
+
+    rv = [n.value for n in walk_no_nested(cod.node) if isinstance(n, ast.Return) and n.value is not None]
+    ok = len(rv) == 1
+    if ok:
+        cs = Describer(ctx, cod).describe(rv[0])
+        ok = cs.kind == "source" and cs.name.endswith(".values") and not any(w in ("sorted", "set", "frozenset", "reversed") for w in cs.wrappers)
     rep.check("R-ORDER-PRESERVED", cod.qname, cod.loc(), ok, "codemods-property",
               "CodemodRegistry.codemods is no longer the insertion-ordered list of the id-keyed registry dict")
     # run(): same object to both consumers, unmodified
@@ -288,9 +368,60 @@ def rule_cli_exclusive(ctx, rep):
         ok = recv in groups and action == "CsvListAction" and len({v[0] for v in found.values()}) == 1
         rep.check("R-CLI-EXCLUSIVE", pa.qname, pa.loc(), ok, opt, f"{opt} is not registered on the shared mutually exclusive group with CsvListAction (receiver {recv}, action {action})")
     csv = ctx.prog.func("codemodder.cli.CsvListAction.__call__")
-    txt = unparse(csv.node)
-    ok = "dict.fromkeys" in txt and "split(','" in txt.replace('"', "'")
-    rep.check("R-CLI-EXCLUSIVE", csv.qname, csv.loc(), ok, "dedup", "CsvListAction no longer de-duplicates items while preserving order")
+    # the stored list is the comma-split of the option value in the order written (duplicates are match_codemods' business)
+    pp = csv.positional_params()
+    P_VALUES = pp[3] if len(pp) > 3 else "values"
+    stores = [n for n in walk_no_nested(csv.node) if isinstance(n, ast.Call) and call_name(n) == "setattr" and len(n.args) == 3]
+    ok = bool(stores)
+    why = "no setattr(namespace, dest, items)"
+    for st in stores:
+        ok, why = _order_preserving_split(ctx, csv, st.args[2], P_VALUES)
+    rep.check("R-CLI-EXCLUSIVE", csv.qname, csv.loc(), ok, "split-in-order", "CsvListAction no longer stores the comma-separated items in the order given: " + why)
+
+
+def _order_preserving_split(ctx, fn, e, p_values, depth: int = 8) -> tuple[bool, str]:
+    """e evaluates to the items of `<values>.split(',')` in their original order (de-duplication allowed)."""
+    r = ctx.resolver(fn)
+    while depth > 0:
+        depth -= 1
+        if isinstance(e, ast.Name):
+            # a list filled in a loop over the split
+            from ..derive import ElemSources
+
+            leaves = ElemSources(ctx, fn, order_matters=True).sources(e)
+            if len(leaves) == 1 and leaves[0][0] is not e:
+                e = leaves[0][0]
+                continue
+            x = r.expand(e)
+            if x is e:
+                return False, f"`{e.id}` is not derived from the option value"
+            e = x
+            continue
+        if isinstance(e, ast.Call):
+            cn = call_name(e)
+            la = last_attr(e.func)
+            if cn in ("list", "tuple") and len(e.args) == 1:
+                e = e.args[0]
+                continue
+            if cn in ("set", "frozenset", "sorted", "reversed"):
+                return False, f"items pass through {cn}()"
+            if isinstance(e.func, ast.Attribute) and la in ("keys",) and not e.args:
+                e = e.func.value
+                continue
+            if isinstance(e.func, ast.Attribute) and la == "fromkeys" and unparse(e.func.value) == "dict" and e.args:
+                e = e.args[0]
+                continue
+            if isinstance(e.func, ast.Attribute) and la == "split" and unparse(e.func.value) == p_values:
+                sep = e.args[0] if e.args else None
+                if isinstance(sep, ast.Constant) and sep.value == ",":
+                    return True, ""
+                return False, "the value is not split on ','"
+            return False, f"`{unparse(e)[:50]}`"
+        if isinstance(e, (ast.ListComp, ast.GeneratorExp)) and len(e.generators) == 1 and isinstance(e.elt, ast.Name) and isinstance(e.generators[0].target, ast.Name) and e.elt.id == e.generators[0].target.id:
+            e = e.generators[0].iter
+            continue
+        return False, f"`{unparse(e)[:50]}`"
+    return False, "derivation too deep"
 
 
 def rule_registry_order(ctx, rep):
@@ -323,11 +454,52 @@ def rule_sast_only_source(ctx, rep):
         rep.check("R-SAST-ONLY-SOURCE", run.qname, run.loc(c), ok, "sast_only-arg",
                   f"sast_only is computed from `{unparse(a) if a is not None else 'nothing'}` rather than from argv.sonar_issues_json / argv.sarif: "
                   "hotspot-only or DefectDojo-only inputs (or an unrecognised SARIF) flip the eligible set")
+    from ..logic import consistent_assignments
+    from ..selection import chain_facts
+
     fn = ctx.prog.func(MATCH)
-    uses = [n for n in walk_no_nested(fn.node) if isinstance(n, ast.Name) and n.id == "sast_only" and isinstance(n.ctx, ast.Load)]
-    tests = [n for n in walk_no_nested(fn.node) if isinstance(n, ast.Compare) and "sast_only" in unparse(n) and "origin" in unparse(n)]
-    rep.check("R-SAST-ONLY-SOURCE", fn.qname, fn.loc(tests[0]) if tests else fn.loc(), len(tests) == 1 and len(uses) == 1, "eligibility-test",
-              "match_codemods no longer has exactly one eligibility test `sast_only xor origin == 'pixee'`")
+    r = ctx.resolver(fn)
+    pp = fn.positional_params()
+    P_INC, P_SAST = (pp[1], pp[3]) if len(pp) > 3 else ("codemod_include", "sast_only")
+
+    def atom(e):
+        if isinstance(e, ast.Name):
+            if e.id == P_SAST:
+                return "S"
+            if e.id == P_INC:
+                return "INC"
+            x = r.expand(e)
+            if x is not e:
+                return x
+        if isinstance(e, ast.Compare) and len(e.ops) == 1 and isinstance(e.ops[0], (ast.Eq, ast.NotEq)):
+            l, rt = e.left, e.comparators[0]
+            for a_, b_ in ((l, rt), (rt, l)):
+                if isinstance(a_, ast.Attribute) and a_.attr == "origin" and isinstance(b_, ast.Constant) and b_.value == "pixee":
+                    return "O" if isinstance(e.ops[0], ast.Eq) else "!O"
+        return None
+
+    _d, sels = _selections(ctx, fn)
+    n_elig = 0
+    for ret, sel in sels:
+        for ins in sel.insertions:
+            envs = []
+            for must in chain_facts(ins):
+                for env in consistent_assignments(must, atom, ["INC", "S", "O"]):
+                    if env not in envs:
+                        envs.append(env)
+            # an insertion made without an include list (exclude / default mode) takes exactly the eligible codemods:
+            # tool-specific ones (origin != pixee) when sast_only, find-and-fix ones (origin == pixee) otherwise
+            no_inc = [e_ for e_ in envs if not e_["INC"]]
+            if not no_inc:
+                continue
+            n_elig += 1
+            got = sorted((e_["S"], e_["O"]) for e_ in no_inc)
+            ok = got == [(False, True), (True, False)]
+            rep.check("R-SAST-ONLY-SOURCE", fn.qname, fn.loc(ins.node), ok, "eligibility-test",
+                      "without an include list a codemod is selected under (sast_only, origin == 'pixee') in " + str(got)
+                      + " instead of exactly [(False, True), (True, False)]: the eligible set is not `sast_only xor pixee`")
+    if n_elig == 0:
+        raise AnalysisError("match_codemods: no insertion reachable without an include list (exclude/default branch not recognised)")
 
 
 def check(ctx, rep):
